@@ -406,3 +406,167 @@ def c12(tier, seed):
                        "AssignedToFirstStepAtOrAfterArrival, Augment* ; acyclicity through to_networkx_graph(validate=True). non-trivial = accepted graph with messages")
     rep.assumptions += ["dyadic rates only (the generator adds 1/rate unrounded)"]
     return rep.finish()
+
+
+# ================================================================================================
+# C14  records / graphs: convert, stack, pad, index, filter, networkx
+# ================================================================================================
+def _tables_of_graph(g, e=None):
+    """base.Graph (single episode if e is None and arrays are 1-D) -> tables with ALL rows (padding included)."""
+    import numpy as onp
+
+    from ..probes import to_grid
+
+    verts, edges = {}, {}
+    for k, v in g.vertices.items():
+        seq, ts, te = onp.asarray(v.seq), onp.asarray(v.ts_start), onp.asarray(v.ts_end)
+        if e is not None:
+            seq, ts, te = seq[e], ts[e], te[e]
+        verts[k] = [dict(seq=int(seq[j]), start=(to_grid(ts[j]) if seq[j] >= 0 else -1), end=(to_grid(te[j]) if seq[j] >= 0 else -1)) for j in range(len(seq))]
+    for (a, b), ed in g.edges.items():
+        so, si, tr = onp.asarray(ed.seq_out), onp.asarray(ed.seq_in), onp.asarray(ed.ts_recv)
+        if e is not None:
+            so, si, tr = so[e], si[e], tr[e]
+        edges[f"{a}>{b}"] = [{"out": int(so[j]), "in": int(si[j]), "recv": (to_grid(tr[j]) if so[j] >= 0 else -1)} for j in range(len(so))]
+    return dict(verts=verts, edges=edges)
+
+
+def _tables_of_record(rec):
+    import numpy as onp
+
+    from ..probes import to_grid
+
+    steps, msgs = {}, {}
+    for n, nr in rec.nodes.items():
+        s = nr.steps
+        steps[n] = [dict(seq=int(s.seq[j]), start=to_grid(s.ts_start[j]), end=to_grid(s.ts_end[j])) for j in range(len(onp.asarray(s.seq)))]
+        for o, ir in (nr.inputs or {}).items():
+            m = ir.messages
+            msgs[f"{o}>{n}"] = [{"out": int(m.seq_out[j]), "in": int(m.seq_in[j]), "recv": to_grid(m.ts_recv[j])} for j in range(len(onp.asarray(m.seq_out)))]
+    return dict(steps=steps, msgs=msgs)
+
+
+def algebra_job(job):
+    import itertools
+
+    import jax
+
+    from rex import base
+    from rex.utils import to_networkx_graph
+
+    from .. import compiled, gen
+    from ..probes import to_grid
+    from .asyncchecks import _hist_run, _hist_step
+
+    cfg = job["cfg"]
+    rng = random.Random(job["seed"])
+    cases = []
+    ends = {f"{c['out']}>{c['in']}": [c["out"], c["in"]] for c in cfg["conns"]}
+    if job["source"] == "record":
+        hists = [_hist_step(rng.randint(3, 7)), _hist_run(rng.randint(2, 8)), _hist_step(rng.randint(2, 5))][: rng.choice([2, 3])]
+        try:
+            g_stacked, eps, h = compiled.record_graphs(cfg, job["seed"], hists)
+        except compiled.NoRecord:
+            return dict(cases=[])
+        nodes = h.nodes
+        recs = [e["record_raw"] for e in eps]
+        graphs = [r.to_graph() for r in recs]
+        for i, (r, g) in enumerate(zip(recs, graphs)):
+            cases.append(dict(id=f"{job['id']}/to_graph/e{i}", op="to_graph", rec=_tables_of_record(r), g=dict(verts=_tables_of_graph(g)["verts"], edges=_tables_of_graph(g)["edges"])))
+        exp = base.ExperimentRecord(episodes=recs)
+        st2 = exp.to_graph()
+        # ExperimentRecord.stack (padded records) -> to_graph must agree with to_graph -> stack
+        try:
+            st3 = exp.stack("padded").to_graph()
+            same = jax.tree_util.tree_all(jax.tree_util.tree_map(lambda a, b: bool((jax.numpy.asarray(a) == jax.numpy.asarray(b)).all()), st2, st3))
+        except Exception as e:  # noqa
+            same = f"exception {e!r}"[:200]
+        cases_extra = [dict(kind="record_stack_then_to_graph", ok=(same is True), detail=str(same))]
+    else:
+        g_stacked, nodes = compiled.generated_graphs(cfg, job["seed"], rng.choice([24, 40, 64]), rng.choice([2, 3]))
+        n_e = next(iter(g_stacked.vertices.values())).seq.shape[0]
+        # generated episodes carry their own -1 rows (steps beyond the horizon)
+        graphs = []
+        for e in range(n_e):
+            ge = jax.tree_util.tree_map(lambda x: x[e], g_stacked)
+            graphs.append(ge)
+        recs = None
+        cases_extra = []
+    eps_tabs = [_tables_of_graph(g) for g in graphs]
+    stacked = base.Graph.stack(graphs)
+    indexed = [_tables_of_graph(stacked[i]) for i in range(len(graphs))]
+    strip = lambda t: dict(verts={k: [r for r in v if r["seq"] >= 0] for k, v in t["verts"].items()},  # noqa
+                           edges={k: [r for r in v if r["out"] >= 0] for k, v in t["edges"].items()})
+    cases.append(dict(id=f"{job['id']}/stack_index", op="stack_index", eps=[strip(t) for t in eps_tabs], indexed=indexed, len=len(stacked)))
+    names = [n["name"] for n in cfg["nodes"]]
+    subsets = [s for r in range(1, len(names) + 1) for s in itertools.combinations(names, r)]
+    rng.shuffle(subsets)
+    for si, sel in enumerate(subsets[: job.get("n_subsets", 4)]):
+        sub = {k: nodes[k] for k in sel}
+        for flag in (True, False):
+            gi = graphs[si % len(graphs)]
+            out = gi.filter(sub, filter_edges=flag)
+            cases.append(dict(id=f"{job['id']}/filter/{'+'.join(sel)}/{flag}", op="filter", g=_tables_of_graph(gi), sel=list(sel), flag=flag, ends=ends,
+                              out=_tables_of_graph(out)))
+            if recs is not None:
+                r = recs[si % len(recs)]
+                try:
+                    ro = r.filter(sub, filter_connections=flag)
+                    cases.append(dict(id=f"{job['id']}/record_filter/{'+'.join(sel)}/{flag}", op="record_filter", rec=_tables_of_record(r), sel=list(sel),
+                                      flag=flag, ends=ends, out=_tables_of_record(ro)))
+                except Exception as e:  # noqa
+                    cases_extra.append(dict(kind="record_filter_raises", sel=list(sel), flag=flag, ok=False, detail=repr(e)[:300]))
+    for i, g in enumerate(graphs[:2]):
+        G = to_networkx_graph(stacked[i], nodes=nodes)
+        nxn = [dict(name=str(n), kind=d["kind"], seq=int(d["seq"]), start=to_grid(d["ts_start"]), end=to_grid(d["ts_end"])) for n, d in G.nodes(data=True)]
+        nxe = [[str(u), str(v)] for u, v in G.edges()]
+        cases.append(dict(id=f"{job['id']}/to_nx/e{i}", op="to_nx", g=indexed[i], ends=ends, nx=dict(nodes=nxn, edges=nxe)))
+    return dict(cases=cases, checks=cases_extra)
+
+
+def c14(tier, seed):
+    from . import engine
+    from .asyncchecks import _graphs
+
+    rep = common.Report("C14", tier, seed)
+    quick = tier == "quick"
+    jobs = []
+    for i, cfg in enumerate(_graphs(seed + 1400, 5 if quick else 40)):
+        jobs.append(dict(kind="pyfunc", module="harness.checks.smallchecks", func="algebra_job", id=f"c14r{i}", cfg=cfg, seed=seed * 10 + i, source="record",
+                         n_subsets=4 if quick else 8, timeout=900))
+    for i, cfg in enumerate(_graphs(seed + 1450, 5 if quick else 40, allow_blocking=False, allow_buffer=False, allow_advance=False, allow_phase_sched=False)):
+        for nd in cfg["nodes"]:
+            nd["sched"] = "F"
+        jobs.append(dict(kind="pyfunc", module="harness.checks.smallchecks", func="algebra_job", id=f"c14g{i}", cfg=cfg, seed=seed * 10 + i, source="generate",
+                         n_subsets=4 if quick else 8, timeout=900))
+    results = common.run_jobs(jobs)
+    items = []
+    for res in results:
+        if not res.get("ok"):
+            raise common.MachineryError(res.get("error", "")[-2500:])
+        for c in res.get("checks", []):
+            rep.cov["evaluations"] += 1
+            if not c["ok"]:
+                rep.violation(dict(kind=c["kind"]), dict(kind="algebra_check", job={k: res["job"][k] for k in ("id", "cfg", "seed", "source")}, check=c), text=str(c)[:600])
+        items += [(res["job"], c) for c in res["cases"]]
+    vs, st = engine.validate_parallel([c for _, c in items], module="GraphAlgebra")
+    rep.add_tlc(st)
+    rep.cov["traces_validated_against_impl"] = len(items)
+    rep.cov["evaluations"] += len(items)
+    ops = {}
+    for (job, c), v in zip(items, vs):
+        ops[c["op"]] = ops.get(c["op"], 0) + 1
+        rep.sample(dict(case=c["id"], op=c["op"], verdict=v["verdict"]), limit=8)
+        if v["verdict"] == "accept":
+            rep.nontrivial(c["id"])
+            continue
+        shadow = any(x.get("name", x["out"]) != x["out"] for x in job["cfg"]["conns"])
+        rep.violation(dict(clause=v["clause"], op=c["op"], shadow_names=shadow, flag=c.get("flag")),
+                      dict(kind="algebra_case", job={k: job[k] for k in ("id", "cfg", "seed", "source")}, case_id=c["id"], verdict=v),
+                      text=f"{c['id']} rejected by GraphAlgebra clause {v['clause']}: {v['detail'][:600]}")
+    rep.cov["cases_per_op"] = ops
+    rep.cov["rule"] = ("real records (threaded runtime, ragged multi-episode, connections with shadow input names) and generated graphs cut to ragged "
+                       "lengths; for each: EpisodeRecord.to_graph, Graph.stack + len + indexing, ExperimentRecord.stack/to_graph, Graph.filter and "
+                       "EpisodeRecord.filter over node subsets with both flags, utils.to_networkx_graph; GraphAlgebra recomputes each result from the "
+                       "inputs (Strip/Index/Filter/ToNx laws) and compares")
+    return rep.finish()
